@@ -268,7 +268,12 @@ def build():
     p.models["new:BatchedCalls"] = new_batch
     p.models["len:Batch"] = lambda i, v: Sym(INT, HI(v.term) - LO(v.term))
     p.models["backend.get_nested_backend"] = lambda i, r, a, k: (Opaque("nested", None), None)
-    p.models["backend.compute_batch_size"] = lambda i, r, a, k: INT.fresh(i.ctx, "auto_bs")
+    def _auto_bs(i, r, a, k):
+        v = INT.fresh(i.ctx, "auto_bs")
+        i.ctx.assume(v.term >= 1)  # contract of AutoBatchingMixin.compute_batch_size (part 1): at_least_one_task_per_batch
+        return v
+
+    p.models["backend.compute_batch_size"] = _auto_bs
 
     # summary of the contract proved for Parallel._dispatch in part 1
     def dispatch_summary(interp, recv, args, kwargs):
